@@ -415,7 +415,7 @@ func checkConc(c ConcCase) (v ev.Verdict) {
 }
 
 func TestC03Concurrent(t *testing.T) {
-	ev.Run(t, ev.Opts{Property: "C03", Name: "concurrent", Quick: 1500, Thorough: 60000,
+	ev.Run(t, ev.Opts{Property: "C03", Name: "concurrent", Quick: 1500, Thorough: 60000, Journal: true,
 		Rule: "one pattern value and one bindings value shared by 4-16 goroutines matching different messages under the race detector; every goroutine's outcome equals the sequential one; non-trivial = >= 4 goroutines and >= 2 of them matched"},
 		genConc, checkConc)
 }
